@@ -124,21 +124,20 @@ def run(ctx):
     if b is not None:
         ev = ctx.evaluate(b)
         sites = E.rng_sites(ev)
-        sn = one(sites, lambda s: s.kind == 'draw' and s.draw_kind == 'sample_iter')
+        sn = one(sites, lambda s: s.kind == 'draw' and s.draw_kind == 'sample_iter' and 'StandardNormal' in s.dist())
         final = ev.final_term('self.positions')
         tds = apps(final, 'tensordata')
         p0 = [td for td in tds if sn is not None and contains(td, sn.res)]
         site(ctx, 'HMC::step', 'momenta', ev, sn, ('sample_iter',), 'StandardNormal', p0[:1], 'momenta are standard normal')
-        su = one(sites, lambda s: s.kind == 'draw' and s.draw_kind == 'rng_random')
+        dv = E.draw_vector(ev, 'StandardUniform', within=final)     # `for` + push, map(..).collect(), or one block of the stream: same variates
+        su = dv['site'] if dv is not None else one(sites, lambda s: s.kind == 'draw' and s.draw_kind == 'rng_random')
         wr, useq = [], None
-        if su is not None and su.loops:
-            ul = E.loop_by_uid(ev, su.loops[0])
-            seqs = [seq for seq, el in collected(ul) if el is su.res]      # `for` + push or map(..).collect(): same collection
-            if len(seqs) == 1:
-                useq = seqs[0]
-                first = [nx for nx in ul.next.values() if isinstance(nx, T.Tm) and contains(nx, su.res) and not T.is_app(nx, 'post0')] or [useq]
-                wr = first + [useq] + [T.app('ln', td) for td in tds if contains(td, useq)]
-        site(ctx, 'HMC::step', 'acceptance-U', ev, su, ('rng_random',), 'StandardUniform', wr, 'acceptance variates are uniform on [0,1), one per chain')
+        if dv is not None:
+            useq = dv['seq']
+            ul = dv['loop']
+            first = ([nx for nx in ul.next.values() if isinstance(nx, T.Tm) and contains(nx, su.res) and not T.is_app(nx, 'post0')] if ul is not None else []) or [useq]
+            wr = first + [useq] + [T.app('ln', td) for td in tds if contains(td, useq)]
+        site(ctx, 'HMC::step', 'acceptance-U', ev, su, ('rng_random', 'sample_iter'), 'StandardUniform', wr, 'acceptance variates are uniform on [0,1), one per chain')
         # the collected uniforms are used only through ln(U)
         if su is not None and useq is not None:
             lnw = [w for w in wr if T.is_app(w, 'ln')]
